@@ -279,7 +279,12 @@ impl World {
 			if p.from == n && !p.ev.sent.is_empty() && p.ev.sent_gen.iter().all(|g| *g + 1 > lg) {
 				p.sent_handling_lost = true;
 			}
+			if p.from == n && !p.ev.failed.is_empty() && p.ev.failed_gen.iter().all(|g| *g + 1 > lg) {
+				p.failed_handling_lost = true;
+			}
 		}
+		let closed = std::mem::take(&mut self.nodes[n].closed_this_incarnation);
+		self.nodes[n].closed_in_earlier_incarnation.extend(closed);
 		self.out.bump("probe:node_restarted");
 		self.note(&format!("node {} restarted (incarnation {})", n, self.nodes[n].incarnation));
 		// In deferred mode the watch_channel registrations above are only queued: checkpoint the
